@@ -308,6 +308,81 @@ def blind_case(case):
 
 
 # ---------------------------------------------------------------------------------------------------------
+# wild names: strings that are perfectly good dictionary keys but awkward as identifiers / in message templates
+# ---------------------------------------------------------------------------------------------------------
+
+WILD = [
+    ('\u00b5', '\u03bc'),                 # MICRO SIGN and GREEK MU: different strings, equal after NFKC normalisation
+    ('\ufb01x', 'fix'),                    # a ligature and its expansion
+    ('\uff41\uff42', 'ab'),                # fullwidth letters and their ASCII twins
+    ('e\u0301', '\u00e9'),                 # decomposed and precomposed accent (NFC-equal)
+    ('{', '}'), ('{}', '{0}'), ('a}b', '{key}'), ('group{0}', '{0!r:>{1}}'),
+    ('%s', '%(name)s'), ('%d%%', '100%'),
+    ('a\nb', 'a\tb'), ("it's", 'say "x"'), ('back\\slash', 'dollar$name'), (' lead', 'trail '),
+    ('class', 'lambda'), ('x' * 300, 'x' * 301), ('\U0001f600', '\u4e2d\u6587'), ('a.b', 'a-b'), ('a[0]', 'a(0)'),
+]
+
+
+def wild_case(case):
+    """Both names of the pair are added to the target (library or module level), each twice; everything is read back."""
+    mod = load_module()
+    first, second = case['pair']
+    target = case['target']
+    lib = mod.TagLibrary()
+    other = mod.TagLibrary()
+    add = mod.add_tag if target == 'G' else lib.add_tag
+    acc = []
+    for name in (first, second):
+        try:
+            add(name)
+        except Exception as e:      # noqa - a refusal is judged by what it leaves behind (the read-back below)
+            if type(e).__name__ == 'DuplicateTagError':
+                raise Violation(f'new tag name {name!r} was rejected as a duplicate (names added so far: {acc!r})',
+                                expected='accepted: it differs from every name added before', observed=str(e)[:200])
+            continue
+        acc.append(name)
+        try:
+            add(name)
+        except Exception as e:      # noqa
+            if type(e).__name__ != 'DuplicateTagError':
+                raise Violation(f'adding {name!r} a second time raised {type(e).__name__} instead of DuplicateTagError',
+                                expected='DuplicateTagError', observed=f'{type(e).__name__}: {e}'[:200])
+        else:
+            raise Violation(f'duplicate tag {name!r} accepted', expected='DuplicateTagError', observed='accepted')
+    look = sorted({first, second, 'NONE'})
+    obs = {'T': observe_lib(None, look, True, mod) if target == 'G' else observe_lib(lib, look, False),
+           'O': observe_lib(other, look, False)}
+    judge(obs['T'], acc, target == 'G', f'{target} after adding {first!r} and {second!r}')
+    judge(obs['O'], [], False, f'bystander library after adding {first!r} and {second!r} to {target}')
+    # a name that was never added, looked up by name at module level: the documented error, whatever the name holds
+    for unknown in (first + '?', second + '{', '{' + first):
+        try:
+            getattr(mod, unknown)
+        except Exception as e:      # noqa
+            if type(e).__name__ != 'TagNotFoundError':
+                raise Violation(f'module-level lookup of the unknown name {unknown!r} raised {type(e).__name__} instead of '
+                                f'TagNotFoundError', expected='TagNotFoundError', observed=f'{type(e).__name__}: {e}'[:200])
+        else:
+            raise Violation(f'module-level lookup of the unknown name {unknown!r} did not raise')
+    for bad_id in (len(acc) + 1, -1, 10 ** 6):
+        try:
+            (mod.get_tag_name if target == 'G' else lib.get_tag_name)(bad_id)
+        except Exception as e:      # noqa
+            if type(e).__name__ != 'TagNotFoundError':
+                raise Violation(f'get_tag_name({bad_id}) raised {type(e).__name__}', expected='TagNotFoundError')
+        else:
+            raise Violation(f'get_tag_name({bad_id}) of an unknown id did not raise')
+    return (target, len(acc))
+
+
+def wild_cases():
+    for a, b in WILD:
+        for target in ('L1', 'G'):
+            yield {'leg': 'wild', 'pair': [a, b], 'target': target}
+            yield {'leg': 'wild', 'pair': [b, a], 'target': target}
+
+
+# ---------------------------------------------------------------------------------------------------------
 # churn leg: many short-lived libraries (object addresses get reused)
 # ---------------------------------------------------------------------------------------------------------
 
@@ -443,6 +518,18 @@ def run(ctx):
             ctx.report(case, v)
             return
     ctx.leg('blind', cases=len(blind), names=len(blind) // 4)
+    nw = 0
+    for case in wild_cases():
+        ctx.traces += 1
+        ctx.states += 1
+        ctx.transitions += 4
+        nw += 1
+        try:
+            ctx.outcome(('wild',) + tuple(case['pair']) + hbfs._guard(wild_case, case))
+        except Violation as v:
+            ctx.report(case, v)
+            return
+    ctx.leg('wild_names', cases=nw, pairs=len(WILD))
     if ctx.small:
         return
     for case in churn_cases():
@@ -465,6 +552,9 @@ def run(ctx):
 
 
 def replay(case):
+    if case['leg'] == 'wild':
+        hbfs._guard(wild_case, case)
+        return
     if case['leg'] == 'blind':
         hbfs._guard(blind_case, case)
     elif case['leg'] == 'churn':
